@@ -220,7 +220,26 @@ fn c10_case_sized(rng: &mut Rng, st: &mut Stats, big: bool) -> CaseOutcome {
     };
     let len = input.len();
     let mut executed: Vec<Op> = Vec::new();
+    // one history in three runs on a scanner that was used before (another text, partly scanned,
+    // peeked, its mode changed)
+    let warm = if rng.chance(1, 3) { Some(gen_input(rng, &res_refs, &p.letters, 25)) } else { None };
     let r = sut(|| -> Result<(), String> {
+        if let Some(w) = &warm {
+            let mut it0 = scanner.find_iter(w);
+            let _ = it0.peek_n(2);
+            let _ = it0.next();
+            let _ = it0.next();
+            let mut o = w.len() / 2;
+            while !w.is_char_boundary(o) {
+                o -= 1;
+            }
+            it0.set_offset(o);
+            if cfg.modes.len() > 1 {
+                it0.set_mode(cfg.modes.len() - 1);
+            }
+            let _ = it0.next();
+            st.count("histories_on_a_scanner_used_before");
+        }
         let mut it = scanner.find_iter(&input);
         let mut pos = 0usize;
         let mut mode = 0usize;
@@ -1152,6 +1171,16 @@ pub fn c09_case(rng: &mut Rng, st: &mut Stats) -> CaseOutcome {
         Err(e) => return CaseOutcome::Violated(Violation::new(e, json!({"kind":"c09","cfg":cfg,"input":input}))),
     };
     let mut log: Vec<String> = Vec::new();
+    // one history in three runs on a scanner that has already scanned another text (with positions)
+    if rng.chance(1, 3) {
+        let warm = gen_c09_input(rng);
+        let n = sut(|| scanner.find_iter(&warm).with_positions().count());
+        if let Err(pm) = n {
+            return CaseOutcome::Violated(Violation::new(format!("panic while scanning {:?}: {}", warm, pm), json!({"kind":"c09","cfg":cfg,"input":warm})));
+        }
+        log.push(format!("(scanner used before on {:?})", warm));
+        st.count("histories_on_a_scanner_used_before");
+    }
     let r = sut(|| -> Result<(), String> {
         // high-water mark of scanned offsets
         let mut hw = 0usize;
@@ -1274,6 +1303,7 @@ pub fn c09(tier: Tier) -> i32 {
     .floor("multi_line_token", 1000)
     .floor("token_positions_checked", 50_000)
     .floor("peeks_between_position_checks", 5_000)
+    .floor("histories_on_a_scanner_used_before", 3_000)
     .floor("inputs_with_more_than_65536_lines", 4)
     .floor("inputs_with_a_line_longer_than_65536_bytes", 4)
     .floor("big_input_token_positions_checked", 500_000)
